@@ -24,6 +24,10 @@ DOTTED_CASE = {"config": {"id": "m", "initial": "v1.0", "context": {"n": 0}, "st
 def cases(tier, seed):
     n = 500 if tier == "quick" else 5000
     yield DOTTED_CASE
+    from bounded import c11
+    for k, c in enumerate(c11.family(tier)):
+        if len(c["events"]) >= 3 and (tier != "quick" or k % 3 == 0):
+            yield c       # structured history family: snapshot while the history-owning parent is inactive
     yield from M.gen_cases(seed * 122949829 + 17, n, max_nodes=8, features={"history": 0.6, "parallel": 0.35, "raise": 0.05}, ev_len=6)
 
 
